@@ -57,7 +57,7 @@ func c09(c *q.Ctx) {
 	}
 	// "rejected if it pays for less than the execution uses": the one comparison of used against declared resources
 	// answers `not exceeded` only after each of the four resource types was compared - a limit of zero is a limit
-	if ex := c.Fn("kernel/contract::(Limits).Exceed"); ex != nil {
+	if ex := c.Fn("kernel/contract::(Limits).Exceed"); ex != nil && c.Normalised("K2", "kernel/contract::(Limits).Exceed", "every resource type is compared with its limit") {
 		notTrue := q.Target{Name: "an exit that may answer `not exceeded`", Instr: func(i ssa.Instruction) bool {
 			r, ok := i.(*ssa.Return)
 			if !ok || len(r.Results) != 1 {
